@@ -56,17 +56,18 @@ type dialRule struct {
 }
 
 type Fabric struct {
-	udp       []*UDPConn
-	next      int
-	head      *logNode
-	tail      *logNode
-	nlog      int
-	hosts     []hostEntry
-	listeners []*TCPListener
-	conns     []*TCPConn
-	rules     []dialRule
-	plans     []dialPlan
-	Dials     int // number of dial attempts made
+	udp         []*UDPConn
+	next        int
+	head        *logNode
+	tail        *logNode
+	nlog        int
+	hosts       []hostEntry
+	listeners   []*TCPListener
+	conns       []*TCPConn
+	rules       []dialRule
+	plans       []dialPlan
+	sinceDriver int
+	Dials       int // number of dial attempts made
 	// DriverMode: sockets created while set belong to the driver (peers)
 	DriverMode bool
 	// ShortReads: a TCP read may return any non-empty prefix of the first pending segment
@@ -82,8 +83,21 @@ var Fab *Fabric
 //go:norace
 func Reset() { Fab = &Fabric{next: 40000} }
 
+// MaxPackets is the horizon of one execution: a program that keeps emitting (a message relayed
+// to itself over and over) would never go quiescent.
+const MaxPackets = 5000
+
 //go:norace
 func addLog(p Packet) {
+	// the horizon counts what the program emits in response to one stimulus of the driver
+	if p.Driver {
+		Fab.sinceDriver = 0
+	} else {
+		Fab.sinceDriver++
+		if Fab.sinceDriver > MaxPackets {
+			panic("vnet: packet horizon exceeded (the program keeps emitting after one stimulus: relay loop?)")
+		}
+	}
 	p.Seq = Fab.nlog
 	n := &logNode{p: p}
 	if Fab.tail == nil {
